@@ -80,9 +80,9 @@ func c11() []*Ob {
 				if idx == nil || q1 == nil || q2 == nil {
 					return
 				}
-				pi := unicodePreds([]*ssa.Function{idx})
+				pi := unicodePreds(c.P.WithRunePredicates(idx))
 				for _, q := range []*ssa.Function{q1, q2} {
-					pq := unicodePreds(WithClosures(q))
+					pq := unicodePreds(c.P.WithRunePredicates(q))
 					if strings.Join(pi, ",") == strings.Join(pq, ",") && len(pi) > 0 {
 						c.Site(q.Pos(), "%s continues a word on %v, like the indexer", FuncName(q), pq)
 					} else {
@@ -119,7 +119,7 @@ func c11() []*Ob {
 					}
 				}
 				for _, q := range []*ssa.Function{q1, q2} {
-					got := runeConstsCompared(WithClosures(q), token.EQL)
+					got := runeConstsCompared(c.P.WithRunePredicates(q), token.EQL)
 					if got['_'] && got['*'] {
 						c.Site(q.Pos(), "%s treats '_' and '*' as word characters", FuncName(q))
 					} else {
@@ -155,7 +155,7 @@ func c11() []*Ob {
 							c.Violation("dom:appendTerm:lower-when-insensitive", l.Pos(), "query terms are lower-cased regardless of the case-sensitivity flag")
 						}
 					}
-					if len(CallsIn(fn, Callee("strings.ToLower"))) == 0 {
+					if !Current.HasCall(fn, Callee("strings.ToLower")) {
 						c.Violation("dom:appendTerm:no-lower", fn.Pos(), "query terms are no longer lower-cased: case-insensitive indexing stores lower-case tokens")
 					}
 				}
